@@ -424,6 +424,11 @@ class Base(object):
     @deco
     def dec(self, x, y=2):
         return (self.marker, 'dec', x, y)
+    # one function wrapped twice: two views of it in one class
+    def _both(self, a, b=2):
+        return (self.marker, 'both', a, b)
+    kwv = modifiers.kwoargs('b')(_both)
+    posv = modifiers.posoargs('self', 'a')(_both)
     # a function Python turns into a class method implicitly, under an emulate=True forger
     @specifiers.forwards_to_function(tf, emulate=True)
     def __class_getitem__(cls, a, *args, **kwargs):
@@ -444,7 +449,7 @@ class Bag(Base):
     def __len__(self):
         return self.n
 '''
-METHODS = ['kw', 'auto', 'pos', 'fwd', 'fwde', 'dec']
+METHODS = ['kw', 'auto', 'pos', 'fwd', 'fwde', 'dec', 'kwv', 'posv']
 CALLS = {
     'kw': [((1,), {}), ((1,), {'b': 5}), ((), {'a': 1, 'b': 2})],
     'auto': [((1,), {}), ((1, 7, 8), {'b': 5}), ((1,), {'b': 3})],
@@ -452,6 +457,8 @@ CALLS = {
     'fwd': [((0, 1), {}), ((0, 1, 5), {'z': 9}), ((0,), {'x': 1})],
     'fwde': [((0, 1), {}), ((0, 1, 5), {'z': 9}), ((0,), {'x': 1})],
     'dec': [((1,), {}), ((1, 5), {'dp': True}), ((1,), {'y': 3})],
+    'kwv': [((1,), {}), ((1,), {'b': 5}), ((1, 5), {})],
+    'posv': [((1,), {}), ((1, 5), {}), ((), {'a': 1})],
 }
 
 
